@@ -37,17 +37,24 @@ type ReqSpec struct {
 	Size    int    `json:"n"`
 	Seg     string `json:"seg"`          // one | split | lines | bytes
 	Close   bool   `json:"cl,omitempty"` // Connection: close
+	// audit extensions
+	Path     string `json:"path,omitempty"`  // request-target path+query instead of the default ("EMPTY": none at all, absolute-form only; "*": asterisk-form)
+	HostPort string `json:"hp,omitempty"`    // authority of an absolute-form target instead of the bare host (may carry a port or userinfo)
+	CloseTok string `json:"cltok,omitempty"` // other spellings of the client's wish to close: "Close", "keep-alive, close"
 }
 
 type RespSpec struct {
-	Status  int    `json:"st"`
-	Interim bool   `json:"i,omitempty"` // a 103 interim response first
-	Framing string `json:"f"`           // cl | chunked | chunked2 | close | none (no length, no body) | clhead (Content-Length n, no body) | chunkedhead (Transfer-Encoding: chunked, no body; 304 only)
-	Size    int    `json:"n"`
-	HSet    int    `json:"h"` // 0 plain | 1 repeated Set-Cookie, empty value, mixed case | 2 Content-Encoding: gzip with a gzip body
-	Close   bool   `json:"cl,omitempty"`
-	Split   string `json:"split,omitempty"` // how the origin cuts the response into writes: "" one write | headbody | lines | bytes
-	Early   bool   `json:"early,omitempty"` // the origin answers as soon as it has the request head, never reads the body, holds the connection
+	Status   int    `json:"st"`
+	Interim  bool   `json:"i,omitempty"` // a 103 interim response first
+	Framing  string `json:"f"`           // cl | chunked | chunked2 | close | none (no length, no body) | clhead (Content-Length n, no body) | chunkedhead (Transfer-Encoding: chunked, no body; 304 only)
+	Size     int    `json:"n"`
+	HSet     int    `json:"h"` // 0 plain | 1 repeated Set-Cookie, empty value, mixed case | 2 Content-Encoding: gzip with a gzip body
+	Close    bool   `json:"cl,omitempty"`
+	Split    string `json:"split,omitempty"` // how the origin cuts the response into writes: "" one write | headbody | lines | bytes
+	Proto10  string `json:"p10,omitempty"`   // origin answers with HTTP/1.0: "1.0" (and closes) | "1.0ka" (Connection: keep-alive, stays open)
+	Interim2 bool   `json:"i2,omitempty"`    // two interim responses (100 Continue, 103) first
+	Location string `json:"loc,omitempty"`   // Location header (3xx): must be relayed, never followed
+	Early    bool   `json:"early,omitempty"` // the origin answers as soon as it has the request head, never reads the body, holds the connection
 }
 
 type Exchange struct {
@@ -56,17 +63,19 @@ type Exchange struct {
 }
 
 type Scenario struct {
-	ID        int          `json:"id"`
-	Family    string       `json:"fam"`
-	Conns     [][]Exchange `json:"conns"`                // one exchange list per client connection (normally one connection)
-	Pipelined bool         `json:"pipe,omitempty"`       // all requests written before the first response is read
-	Mode      string       `json:"mode,omitempty"`       // "" | concurrent | stalled_reader | interleaved | partial_next | idle_timeout
-	Sched     []int        `json:"sched,omitempty"`      // interleaved: connection index of each step (even step of a connection = send its next request, odd = read and check its response)
-	Cut       string       `json:"cut,omitempty"`        // partial_next: where the prefix of request 2 that travels with request 1 ends
-	TimeoutMs int          `json:"timeout_ms,omitempty"` // idle_timeout: proxy.SetTimeout
-	GapMs     int          `json:"gap_ms,omitempty"`     // idle_timeout: pause between a response and the next request
-	AlsoTCP   bool         `json:"tcp,omitempty"`
-	BufCap    int          `json:"buf,omitempty"`
+	ID         int          `json:"id"`
+	Family     string       `json:"fam"`
+	Conns      [][]Exchange `json:"conns"`                // one exchange list per client connection (normally one connection)
+	Pipelined  bool         `json:"pipe,omitempty"`       // all requests written before the first response is read
+	Mode       string       `json:"mode,omitempty"`       // "" | concurrent | stalled_reader | interleaved | partial_next | idle_timeout
+	Sched      []int        `json:"sched,omitempty"`      // interleaved: connection index of each step (even step of a connection = send its next request, odd = read and check its response)
+	Cut        string       `json:"cut,omitempty"`        // partial_next: where the prefix of request 2 that travels with request 1 ends
+	TimeoutMs  int          `json:"timeout_ms,omitempty"` // idle_timeout: proxy.SetTimeout
+	GapMs      int          `json:"gap_ms,omitempty"`     // idle_timeout: pause between a response and the next request
+	Downstream bool         `json:"downstream,omitempty"` // proxy.SetDownstreamProxy(http://downstream.test:3128): every upstream dial must go there
+	No100      bool         `json:"no100,omitempty"`      // the origin never sends "100 Continue" (the transport's ExpectContinueTimeout of 1 s decides)
+	AlsoTCP    bool         `json:"tcp,omitempty"`
+	BufCap     int          `json:"buf,omitempty"`
 }
 
 const originHost = "origin.test"
@@ -81,6 +90,20 @@ var reqHeaderPool = [][]h1harness.HeaderField{
 	6: {{"Accept-Encoding", "identity"}},
 	7: {{"Expect", "100-continue"}},
 	8: {{"User-Agent", "c01-client/1.0"}, {"Accept", "text/plain, */*;q=0.1"}, {"X-Custom", "foo, bar"}, {"Accept-Encoding", "br"}},
+	// audit extensions
+	9:  {{"Range", "bytes=0-9"}, {"If-None-Match", "\"abc\", W/\"d\""}, {"Authorization", "Basic dTpw"}, {"Cookie", "a=1; b=2"}, {"Cookie", "c=3"}},
+	10: manyHeaders(100),
+	11: {{"X-Ws", "a  b\tc"}, {"X-Semi", ";;;"}, {"X-Quote", "\"q, r\""}, {"X-Utf8", "caf\xc3\xa9"}},
+	12: {{"Connection", "X-Hop"}, {"X-Hop", "1"}, {"X-Keep", "2"}},
+	13: {{"Content-Type", "multipart/form-data; boundary=xYz"}, {"Content-Language", "en"}, {"Origin", "http://a.example"}, {"Referer", "http://a.example/x?y#z"}},
+}
+
+func manyHeaders(n int) []h1harness.HeaderField {
+	var out []h1harness.HeaderField
+	for i := 0; i < n; i++ {
+		out = append(out, h1harness.HeaderField{Name: fmt.Sprintf("X-H-%03d", i), Value: fmt.Sprintf("v%d", i)})
+	}
+	return out
 }
 
 var respHeaderPool = [][]h1harness.HeaderField{
@@ -98,7 +121,7 @@ func (r ReqSpec) hasAcceptEncoding() bool {
 	return false
 }
 
-func (r ReqSpec) closes() bool { return r.Close || r.Proto == "1.0" }
+func (r ReqSpec) closes() bool { return r.Close || r.Proto == "1.0" || r.CloseTok != "" }
 
 func bodiless(method string, status int) bool {
 	return method == "HEAD" || status == 204 || status == 304
@@ -109,6 +132,9 @@ func bodiless(method string, status int) bool {
 func (e Exchange) closes() bool {
 	if e.Req.closes() || e.Resp.Close {
 		return true
+	}
+	if e.Resp.Proto10 == "1.0" {
+		return true // an HTTP/1.0 response without keep-alive ends the connection
 	}
 	return e.Resp.Framing == "close" && !bodiless(e.Req.Method, e.Resp.Status)
 }
@@ -199,14 +225,31 @@ func chunk(b []byte) []byte {
 }
 
 func buildReq(scID, conn, ex int, r ReqSpec) *builtReq {
-	out := &builtReq{target: pathFor(conn, ex)}
+	path := pathFor(conn, ex)
+	if r.Path == "EMPTY" {
+		path = ""
+	} else if r.Path != "" {
+		path = r.Path
+	}
+	out := &builtReq{target: path}
+	if path == "" {
+		out.target = "/" // an absolute-form target without a path asks for "/"
+	}
 	if r.Framing != "none" && r.Framing != "cl0" {
 		out.payload = h1harness.Pattern(seed(scID, conn, ex, 0), r.Size)
 	}
 	var lines []string
-	t := out.target
+	auth := originHost
+	if r.HostPort != "" {
+		auth = r.HostPort
+	}
+	hostHdr := auth
+	if i := strings.LastIndexByte(hostHdr, '@'); i >= 0 {
+		hostHdr = hostHdr[i+1:]
+	}
+	t := path
 	if r.Abs {
-		t = "http://" + originHost + t
+		t = "http://" + auth + path
 	}
 	proto := "HTTP/1.1"
 	if strings.HasPrefix(r.Proto, "1.0") {
@@ -223,12 +266,14 @@ func buildReq(scID, conn, ex int, r ReqSpec) *builtReq {
 			out.headers = append(out.headers, h1harness.HeaderField{Name: n, Value: v})
 		}
 	}
-	add("Host", originHost, true)
+	add("Host", hostHdr, true)
 	for _, h := range reqHeaderPool[r.HSet] {
 		add(h.Name, h.Value, true)
 	}
 	add("X-Exchange", tag(conn, ex), true)
 	switch {
+	case r.CloseTok != "":
+		add("Connection", r.CloseTok, false)
 	case r.Close:
 		add("Connection", "close", false)
 	case r.Proto == "1.0ka":
@@ -283,6 +328,7 @@ type builtResp struct {
 	body    []byte                  // bytes of the body as the origin sent them (gzip bytes for hset 2)
 	clHead  string                  // Content-Length value sent on a bodiless response ("" if none)
 	early   bool
+	trailer string
 	close   bool
 }
 
@@ -297,10 +343,21 @@ func gz(b []byte) []byte {
 func buildResp(scID, conn, ex int, method string, r RespSpec) *builtResp {
 	out := &builtResp{status: r.Status, early: r.Early}
 	var sb bytes.Buffer
-	if r.Interim {
+	if r.Interim2 {
+		sb.WriteString("HTTP/1.1 100 Continue\r\n\r\n")
+	}
+	if r.Interim || r.Interim2 {
 		sb.WriteString("HTTP/1.1 103 Early Hints\r\nLink: </style.css>; rel=preload\r\n\r\n")
 	}
-	fmt.Fprintf(&sb, "HTTP/1.1 %d %s\r\n", r.Status, http.StatusText(r.Status))
+	version := "HTTP/1.1"
+	if r.Proto10 != "" {
+		version = "HTTP/1.0"
+	}
+	reason := http.StatusText(r.Status)
+	if reason == "" {
+		reason = "Custom Reason"
+	}
+	fmt.Fprintf(&sb, "%s %d %s\r\n", version, r.Status, reason)
 	add := func(n, v string, e2e bool) {
 		if v == "" {
 			sb.WriteString(n + ":\r\n")
@@ -314,6 +371,23 @@ func buildResp(scID, conn, ex int, method string, r RespSpec) *builtResp {
 	add("Date", "Mon, 01 Jan 2024 00:00:00 GMT", true)
 	add("Content-Type", "application/octet-stream", true)
 	add("X-Exchange", tag(conn, ex), true)
+	if r.Location != "" {
+		add("Location", r.Location, true)
+	}
+	switch r.Status {
+	case 206:
+		add("Content-Range", "bytes 0-9/100", true)
+	case 401:
+		add("WWW-Authenticate", "Basic realm=\"x\"", true)
+	case 429, 503:
+		add("Retry-After", "120", true)
+	}
+	if r.Proto10 == "1.0ka" {
+		add("Connection", "keep-alive", false)
+	}
+	if r.Framing == "chunkedT" {
+		add("Trailer", "X-Resp-Trail", false)
+	}
 	for _, h := range respHeaderPool[r.HSet] {
 		add(h.Name, h.Value, true)
 	}
@@ -328,11 +402,14 @@ func buildResp(scID, conn, ex int, method string, r RespSpec) *builtResp {
 		if nobody || r.Framing == "clhead" {
 			out.clHead = strconv.Itoa(len(payload))
 		}
-	case "chunked", "chunked2", "chunkedhead", "chunked4k", "chunkedPow", "chunkedEnd1", "chunkedExt":
+	case "chunked", "chunked2", "chunkedhead", "chunked4k", "chunkedPow", "chunkedEnd1", "chunkedExt", "chunkedT":
 		add("Transfer-Encoding", "chunked", false)
 	}
 	if r.Close {
 		add("Connection", "close", false)
+		out.close = true
+	}
+	if r.Proto10 == "1.0" {
 		out.close = true
 	}
 	sb.WriteString("\r\n")
@@ -345,6 +422,10 @@ func buildResp(scID, conn, ex int, method string, r RespSpec) *builtResp {
 		case "close":
 			sb.Write(payload)
 			out.close = true
+		case "chunkedT":
+			sb.Write(chunkedBody(r.Framing, payload))
+			sb.WriteString("0\r\nX-Resp-Trail: rt-" + tag(conn, ex) + "\r\n\r\n")
+			out.trailer = "rt-" + tag(conn, ex)
 		case "chunked", "chunked2", "chunked4k", "chunkedPow", "chunkedEnd1", "chunkedExt":
 			sb.Write(chunkedBody(r.Framing, payload))
 			sb.WriteString("0\r\n\r\n")
@@ -532,7 +613,7 @@ func (g *gen) add(s Scenario) {
 	switch {
 	case s.Family == "G_gzip_seq":
 		s.AlsoTCP = true
-	case s.Mode != "" || s.Family == "E_large" || s.Family == "H_early_response" || s.Family == "T_idle_timeout":
+	case s.Mode != "" || s.Family == "E_large" || s.Family == "H_early_response" || s.Family == "T_idle_timeout" || s.Family == "N_expect_without_100":
 	case g.thorough && strings.HasPrefix(s.Family, "D"):
 		s.AlsoTCP = i%307 == 0
 	case g.thorough: // sparser than quick: loopback sockets linger in TIME_WAIT and ephemeral ports are finite
@@ -768,10 +849,181 @@ func scenarios(tier string, keep func(id int) bool) (map[int]*Scenario, int, map
 		e := alpha[0]
 		g.add(Scenario{Family: "T_idle_timeout", Conns: [][]Exchange{{e, alpha[5], e, alpha[10]}}, Mode: "idle_timeout", TimeoutMs: tg[0], GapMs: tg[1]})
 	}
+	auditFamilies(g, alpha, thorough)
 	if thorough {
 		deepFamilies(g, alpha)
 	}
 	return g.kept, g.n, g.fam
+}
+
+// request-target shapes (path+query as the client writes it; the origin must see exactly this, "/" for none)
+var targetShapes = []string{
+	"EMPTY", "/", "/?", "/p?", "/p??x", "//a//b", "/a/../b/./c", "/a/b/", "/%2e%2e/x", "/a%20b", "/caf%C3%A9", "/%C3%A9%2F%3F%23",
+	"/a+b?c+d=e+f", "/p?q=%26%3D&r", "/p;params?x;y", "/p?a=http://x/y?z", "/:colon/@at", "/p?%zz", "/~tilde/!$&'()*,=", "/" + strings.Repeat("x", 8000),
+	"/p?" + strings.Repeat("q=1&", 2000),
+}
+
+// auditFamilies: families added by the audit of the check (quick: reduced, thorough: full).
+func auditFamilies(g *gen, alpha []Exchange, thorough bool) {
+	get := ReqSpec{Method: "GET", Abs: true, Proto: "1.1", Framing: "none", Seg: "one"}
+	// U: request-target shapes x target form x method (incl. extension methods and OPTIONS *)
+	methods := []string{"GET", "POST"}
+	if thorough {
+		methods = []string{"GET", "HEAD", "POST", "DELETE", "OPTIONS"}
+	}
+	for _, shape := range targetShapes {
+		for _, abs := range []bool{true, false} {
+			if shape == "EMPTY" && !abs {
+				continue
+			}
+			for _, m := range methods {
+				r := ReqSpec{Method: m, Abs: abs, Proto: "1.1", Framing: "none", Seg: "one", Path: shape}
+				if m == "POST" {
+					r.Framing, r.Size = "cl", 1
+				}
+				g.add(single("U_target_shapes", r, defaultResp))
+			}
+		}
+	}
+	for _, m := range []string{"PROPFIND", "TRACE", "M-SEARCH", "get", "PURGE", "QUERY", "LINK"} {
+		for _, abs := range []bool{true, false} {
+			for _, b := range []bodyVariant{{"none", 0}, {"cl", 17}, {"ch2", 17}} {
+				g.add(single("U_extension_methods", ReqSpec{Method: m, Abs: abs, Proto: "1.1", Framing: b.framing, Size: b.size, Seg: "one"}, defaultResp))
+			}
+		}
+	}
+	g.add(single("U_target_shapes", ReqSpec{Method: "OPTIONS", Proto: "1.1", Framing: "none", Seg: "one", Path: "*"}, defaultResp))
+	for _, hp := range []string{originHost + ":80", "user:pw@" + originHost, "user@" + originHost + ":80"} {
+		for _, m := range []string{"GET", "POST"} {
+			r := ReqSpec{Method: m, Abs: true, Proto: "1.1", Framing: "none", Seg: "one", HostPort: hp}
+			g.add(single("U_authority_shapes", r, defaultResp))
+		}
+	}
+	// K: other spellings of the client's wish to close
+	for _, tok := range []string{"Close", "CLOSE", "keep-alive, close", "close, X-Foo"} {
+		for _, pr := range []string{"1.1", "1.0"} {
+			for _, b := range []bodyVariant{{"none", 0}, {"cl", 4097}} {
+				r := ReqSpec{Method: "POST", Abs: true, Proto: pr, Framing: b.framing, Size: b.size, Seg: "one", CloseTok: tok}
+				g.add(single("K_close_spellings", r, defaultResp))
+				g.add(Scenario{Family: "K_close_spellings", Conns: [][]Exchange{{alpha[0], {r, defaultResp}}}})
+			}
+		}
+	}
+	// V: status codes beyond the basic set, HTTP/1.0 origins, response trailers, two interim responses
+	statuses := []int{202, 203, 205, 206, 226, 299, 300, 301, 302, 303, 307, 308, 400, 401, 403, 410, 418, 429, 451, 501, 502, 503, 504, 599}
+	for _, st := range statuses {
+		for _, m := range []string{"GET", "POST", "HEAD"} {
+			for _, f := range []string{"cl", "chunked", "close"} {
+				for _, n := range []int{0, 4097} {
+					if st == 205 && n > 0 {
+						continue
+					}
+					if !thorough && (f == "close" || m == "HEAD") && st%3 != 0 {
+						continue
+					}
+					r := get
+					r.Method = m
+					if m == "POST" {
+						r.Framing, r.Size = "cl", 1
+					}
+					p := RespSpec{Status: st, Framing: f, Size: n}
+					if st/100 == 3 {
+						p.Location = "http://" + originHost + "/redirect-target?x=1"
+					}
+					g.add(single("V_statuses", r, p))
+					g.add(Scenario{Family: "V_statuses", Conns: [][]Exchange{{{r, p}, alpha[1]}}})
+				}
+			}
+		}
+	}
+	for _, p10 := range []string{"1.0", "1.0ka"} {
+		for _, m := range []string{"GET", "POST", "HEAD"} {
+			for _, pr := range []string{"1.1", "1.0", "1.0ka"} {
+				for _, f := range []string{"cl", "close"} {
+					for _, n := range []int{0, 1, 4097} {
+						if p10 == "1.0ka" && f == "close" {
+							continue
+						}
+						r := ReqSpec{Method: m, Abs: true, Proto: pr, Framing: "none", Seg: "one"}
+						if m == "POST" {
+							r.Framing, r.Size = "cl", 1
+						}
+						p := RespSpec{Status: 200, Framing: f, Size: n, Proto10: p10}
+						g.add(single("V_http10_origin", r, p))
+						g.add(Scenario{Family: "V_http10_origin", Conns: [][]Exchange{{{r, p}, alpha[0]}}})
+						g.add(Scenario{Family: "V_http10_origin", Conns: [][]Exchange{{alpha[1], {r, p}}}, Pipelined: true})
+					}
+				}
+			}
+		}
+	}
+	for _, n := range []int{0, 1, 4097} {
+		for _, pr := range []string{"1.1", "1.0ka"} {
+			for _, cl := range []bool{false, true} {
+				r := get
+				r.Proto = pr
+				g.add(single("V_resp_trailers", r, RespSpec{Status: 200, Framing: "chunkedT", Size: n, Close: cl}))
+				g.add(Scenario{Family: "V_resp_trailers", Conns: [][]Exchange{{{r, RespSpec{Status: 200, Framing: "chunkedT", Size: n}}, alpha[1]}}, Pipelined: cl})
+			}
+		}
+		g.add(single("V_two_interim", get, RespSpec{Status: 200, Interim2: true, Framing: "cl", Size: n}))
+		g.add(single("V_two_interim", get, RespSpec{Status: 200, Interim2: true, Framing: "chunked", Size: n}))
+		g.add(Scenario{Family: "V_two_interim", Conns: [][]Exchange{{{get, RespSpec{Status: 200, Interim2: true, Framing: "chunked", Size: n}}, alpha[1]}}, Pipelined: true})
+	}
+	// W: the proxy forwards through a downstream proxy (SetDownstreamProxy): singles and sequences of length 2
+	for _, a := range alpha {
+		g.add(Scenario{Family: "W_downstream_proxy", Conns: [][]Exchange{{a}}, Downstream: true})
+		if a.closes() {
+			continue
+		}
+		for _, b := range alpha {
+			if !thorough && (b.Req.Method != a.Req.Method) {
+				continue
+			}
+			for _, pipe := range []bool{false, true} {
+				g.add(Scenario{Family: "W_downstream_proxy", Conns: [][]Exchange{{a, b}}, Downstream: true, Pipelined: pipe})
+			}
+		}
+	}
+	// Q: one client connection after the other on the same proxy (the second meets the transport's pooled
+	// upstream connection and whatever state the first left behind)
+	for _, a := range alpha {
+		if a.closes() {
+			continue
+		}
+		for _, b := range alpha {
+			if !thorough && b.Resp.Status != a.Resp.Status && b.Req.Method != a.Req.Method {
+				continue
+			}
+			g.add(Scenario{Family: "Q_sequential_connections", Conns: [][]Exchange{{a}, {b}}, Mode: "sequential_conns"})
+			if thorough {
+				g.add(Scenario{Family: "Q_sequential_connections", Conns: [][]Exchange{{a, b}, {b, a}, {a}}, Mode: "sequential_conns"})
+			}
+		}
+	}
+	// J: the client half-closes right after its last request
+	for _, a := range alpha {
+		a.Req.Close, a.Req.CloseTok = false, ""
+		g.add(Scenario{Family: "J_client_half_close", Conns: [][]Exchange{{a}}, Mode: "half_close"})
+		for _, b := range alpha {
+			if b.closes() || (!thorough && b.Req.Method != "POST") {
+				continue
+			}
+			g.add(Scenario{Family: "J_client_half_close", Conns: [][]Exchange{{b, a}}, Mode: "half_close"})
+		}
+	}
+	// N: "Expect: 100-continue" towards an origin that never sends 100 Continue (the transport proceeds after
+	// its ExpectContinueTimeout of one second)
+	n100 := []string{"cl"}
+	if thorough {
+		n100 = []string{"cl", "ch2", "chT"}
+	}
+	for _, f := range n100 {
+		for _, m := range []string{"POST", "PUT"} {
+			r := ReqSpec{Method: m, Abs: true, Proto: "1.1", HSet: 7, Framing: f, Size: 4097, Seg: "split"}
+			g.add(Scenario{Family: "N_expect_without_100", Conns: [][]Exchange{{{r, defaultResp}, alpha[0]}}, No100: true})
+		}
+	}
 }
 
 // wide 8x8 exchange alphabet (adds Expect: 100-continue, an implicit HTTP/1.0 close, gzip, 304 with
@@ -965,17 +1217,18 @@ type finding struct {
 }
 
 type runOut struct {
-	reached                          map[string]bool
-	quiet                            time.Duration
-	findings                         []finding
-	outcome                          []string // canonical per-exchange outcome (for mem/tcp comparison and distinct outcome counting)
-	exchanges                        int
-	originReq                        int
-	trailersRelayed, trailersDropped int
-	http10Chunked                    int
-	cl304Dropped                     int
-	inconclusive                     int
-	bodyBytes                        int64
+	reached                                  map[string]bool
+	quiet                                    time.Duration
+	findings                                 []finding
+	outcome                                  []string // canonical per-exchange outcome (for mem/tcp comparison and distinct outcome counting)
+	exchanges                                int
+	originReq                                int
+	trailersRelayed, trailersDropped         int
+	http10Chunked                            int
+	cl304Dropped                             int
+	inconclusive                             int
+	respTrailersRelayed, respTrailersDropped int
+	bodyBytes                                int64
 }
 
 func classOf(s *Scenario, e Exchange) string {
@@ -1101,11 +1354,8 @@ func (o *originScript) handler(conn, idx int, req *h1harness.RawRequest, perr er
 		return h1harness.Action{Write: [][]byte{[]byte("HTTP/1.1 200 OK\r\nContent-Length: 8\r\nX-Probe: yes\r\n\r\nprobe-ok")}}
 	}
 	t := ""
-	if i := strings.Index(req.Target, "/a;v=1/"); i >= 0 {
-		t = req.Target[i+len("/a;v=1/"):]
-		if j := strings.IndexAny(t, "?/"); j >= 0 {
-			t = t[:j]
-		}
+	if v := req.Get("X-Exchange"); len(v) > 0 {
+		t = v[0]
 	}
 	o.mu.Lock()
 	o.order = append(o.order, t)
@@ -1216,6 +1466,10 @@ func runConn(env *h1harness.Env, s *Scenario, ci int, script *originScript, out 
 			}
 			return
 		}
+	}
+	if s.Mode == "sequential_conns" && ci < len(s.Conns)-1 {
+		cl.Conn.Close() // the client is done with this connection; the next one follows on the same proxy
+		return
 	}
 	// the connection must still be usable: probe it (the probe asks to close, so EOF must follow)
 	if !s.Pipelined {
@@ -1393,6 +1647,29 @@ func runScripted(env *h1harness.Env, s *Scenario, script *originScript, out *run
 		if !read(1) {
 			return
 		}
+	case "half_close":
+		// the client shuts down its sending side right after its last request; the response must still
+		// arrive in full, followed by the proxy's close
+		for k := range exs {
+			if err := cl.Send(buildReq(s.ID, 0, k, exs[k].Req).segs...); err != nil {
+				report(k, "conn_closed_early", "writing request failed: "+err.Error())
+				return
+			}
+			if k == len(exs)-1 {
+				cl.CloseWrite()
+			}
+			if !read(k) {
+				return
+			}
+		}
+		extra, end := cl.Drain()
+		addOutcome("end=" + end)
+		if len(extra) > 0 {
+			report(len(exs)-1, "resp_trailing_garbage", fmt.Sprintf("%d bytes after the last response: %q", len(extra), trunc(extra, 80)))
+		} else if end != h1harness.EndEOF {
+			report(len(exs)-1, "conn_not_closed", "the client half-closed after its last request; after the response the connection ended as: "+end)
+		}
+		return
 	case "idle_timeout":
 		limit := time.Duration(s.TimeoutMs) * time.Millisecond / 2
 		var done time.Time
@@ -1499,6 +1776,15 @@ func checkResponse(s *Scenario, e Exchange, wantTag string, k int, res *h1harnes
 		report(k, "resp_header_lost:"+name, fmt.Sprintf("origin sent %v, client received %q", valuesOf(want.headers, name), res.Header[http.CanonicalHeaderKey(name)]))
 		ok = false
 	}
+	if want.trailer != "" {
+		mu.Lock()
+		if res.Trailer.Get("X-Resp-Trail") == want.trailer {
+			out.respTrailersRelayed++
+		} else {
+			out.respTrailersDropped++ // permitted (RFC 9112 7.1.2): counted, not a violation
+		}
+		mu.Unlock()
+	}
 	if want.clHead != "" {
 		if got := res.Header.Get("Content-Length"); got != want.clHead {
 			if e.Req.Method == "HEAD" && res.Status != 304 && res.Status != 204 {
@@ -1563,6 +1849,10 @@ func checkOrigin(s *Scenario, log []*h1harness.RawRequest, parseErrs []string, o
 		order = append(order, t)
 	}
 	out.originReq = len(log)
+	if n := len(byTag[""]); n > 0 {
+		// a request the client never sent (e.g. the proxy followed a redirect on its own)
+		out.findings = append(out.findings, finding{0, reqClassOf(s, s.Conns[0][0]), "req_unexpected_at_origin", fmt.Sprintf("the origin received %d request(s) no client sent, first: %s %s", n, byTag[""][0].Method, byTag[""][0].Target)})
+	}
 	for _, pe := range parseErrs {
 		out.findings = append(out.findings, finding{0, reqClassOf(s, s.Conns[0][0]), "req_malformed_at_origin", pe})
 	}
@@ -1602,15 +1892,28 @@ func checkOrigin(s *Scenario, log []*h1harness.RawRequest, parseErrs []string, o
 				add("req_method", fmt.Sprintf("origin got method %q, client sent %q", r.Method, e.Req.Method))
 			}
 			tgt := r.Target
-			if i := strings.Index(tgt, "://"); i >= 0 {
-				if j := strings.IndexByte(tgt[i+3:], '/'); j >= 0 {
-					tgt = tgt[i+3+j:]
+			if i := strings.Index(tgt, "://"); i > 0 && !strings.ContainsAny(tgt[:i], "/?") {
+				// absolute-form (what a downstream proxy receives): compare path and query only
+				rest := tgt[i+3:]
+				if j := strings.IndexAny(rest, "/?"); j >= 0 {
+					tgt = rest[j:]
+					if tgt[0] == '?' {
+						tgt = "/" + tgt
+					}
+				} else {
+					tgt = "/"
 				}
 			}
 			if tgt != w.target {
 				add("req_target", fmt.Sprintf("origin got target %q, client sent path+query %q", r.Target, w.target))
 			}
-			for _, name := range multisetMissing(w.headers, r.Get, nil) {
+			var reqConnVals []string
+			for _, h := range w.headers {
+				if strings.EqualFold(h.Name, "Connection") {
+					reqConnVals = append(reqConnVals, h.Value)
+				}
+			}
+			for _, name := range multisetMissing(w.headers, r.Get, reqConnVals) {
 				add("req_header_lost:"+name, fmt.Sprintf("client sent %v, origin received %q", valuesOf(w.headers, name), r.Get(name)))
 			}
 			if e.Resp.Early {
@@ -1650,8 +1953,12 @@ func runScenario(s *Scenario, kind string, quiet time.Duration) *runOut {
 			sent[tag(ci, k)] = buildReq(s.ID, ci, k, e.Req)
 		}
 	}
-	origin := &h1harness.Origin{Handler: script.handler, Early: script.early, Continue100: true}
-	env, err := h1harness.NewEnv(h1harness.EnvOpts{Kind: kind, BufCap: s.BufCap, Timeout: time.Duration(s.TimeoutMs) * time.Millisecond}, origin)
+	origin := &h1harness.Origin{Handler: script.handler, Early: script.early, Continue100: !s.No100}
+	opts := h1harness.EnvOpts{Kind: kind, BufCap: s.BufCap, Timeout: time.Duration(s.TimeoutMs) * time.Millisecond}
+	if s.Downstream {
+		opts.Downstream = "http://downstream.test:3128"
+	}
+	env, err := h1harness.NewEnv(opts, origin)
 	if err != nil {
 		out.findings = append(out.findings, finding{0, "harness", "env_failed", err.Error()})
 		return out
@@ -1680,8 +1987,14 @@ func runScenario(s *Scenario, kind string, quiet time.Duration) *runOut {
 		})
 	case "interleaved":
 		runInterleaved(env, s, script, out, &mu)
-	case "partial_next", "idle_timeout":
+	case "partial_next", "idle_timeout", "half_close":
 		runScripted(env, s, script, out, &mu)
+	case "sequential_conns":
+		// one client connection after the other on the same proxy (shared transport, pooled upstream
+		// connections): every connection but the last is closed by the client after its exchanges
+		for ci := range s.Conns {
+			runConn(env, s, ci, script, out, &mu, nil)
+		}
 	default:
 		runConn(env, s, 0, script, out, &mu, nil)
 	}
@@ -1689,6 +2002,16 @@ func runScenario(s *Scenario, kind string, quiet time.Duration) *runOut {
 	// snapshot of what the origin saw, taken before the teardown (which cuts connections and may thereby
 	// provoke transport retries that are not part of the scenario)
 	originLog, originErrs := env.Origin.Log(), env.Origin.ParseErrors()
+	for _, d := range env.Dials() {
+		want := originHost + ":80"
+		if s.Downstream {
+			want = "downstream.test:3128"
+		}
+		if d != want {
+			out.findings = append(out.findings, finding{0, reqClassOf(s, s.Conns[0][0]), "dial_target", fmt.Sprintf("the proxy dialled %q, the configuration sends this exchange to %q", d, want)})
+			break
+		}
+	}
 	shutdownOK := env.Close()
 	if !shutdownOK {
 		out.findings = append(out.findings, finding{0, classOf(s, s.Conns[0][0]), "proxy_shutdown_hang", "proxy.Close() did not return within 20 s after all client connections were closed"})
@@ -1720,6 +2043,8 @@ func runCase(s *Scenario) *h1harness.CaseResult {
 	res.C["chunked_to_http10_client"] += int64(o.http10Chunked)
 	res.C["content_length_dropped_on_304"] += int64(o.cl304Dropped)
 	res.C["idle_timeout_runs_inconclusive"] += int64(o.inconclusive)
+	res.C["resp_trailers_relayed"] += int64(o.respTrailersRelayed)
+	res.C["resp_trailers_dropped"] += int64(o.respTrailersDropped)
 	nontrivial := len(s.Conns) > 1
 	for _, exs := range s.Conns {
 		if len(exs) > 1 {
